@@ -48,8 +48,25 @@ func runC06(r *Runner, g *Gen, tier string) string {
 			r.Do(op, len(pre) > 0, "app.repeat")
 		}
 	}
+	mutStream(r, g, scale(tier, 800, 60000))
+	// widest varints and fixed-width values with every amount of spare capacity up to a little beyond the encoding
+	wide := Struct(F("A", "1", B("uint64")), &FieldDef{Name: "B", Exported: true, Plenc: "2,flat", T: B("int64")}, F("C", "3", B("int64")),
+		F("T", "4", &TyDef{K: "time"}), F("F", "5", B("f64")), F("S", "6", B("str")))
+	for _, a := range []uint64{1 << 63, ^uint64(0), 1<<56 - 1, 1 << 56, 127, 128} {
+		v := &Val{K: "r", L: []*Val{{K: "u", U: a}, {K: "i", I: -1}, {K: "i", I: -1 << 63}, {K: "T", Sec: 1700000000, Nsec: 999999999},
+			{K: "f64", U: 0x4009_21fb_5444_2d18}, {K: "s", Data: []byte("hello")}}}
+		for capExtra := 0; capExtra <= 64; capExtra++ {
+			r.Do(codecOp("app", "00", wide, "", v.Sexp(), A(hx([]byte{9})), A(fmt.Sprint(capExtra)), A("ptr")), true, "app.capsweep")
+		}
+	}
+	return "generated types and values (25% zero values that encode to nothing; no multi-entry maps), random prefix contents (0..40 bytes), spare capacity 0/1/8/64/4096 and every value below 40, a sweep of all capacities 0..64 under a struct of 10-byte varints, a time, a float and a string, by pointer and by value (incl. pointer-shaped structs), repeated calls; compared: the returned bytes = prefix ++ Marshal(nil, v); non-trivial = non-empty prefix"
+}
+
+// mutStream: the value changes in place between two Marshal calls (same map objects, same backing
+// arrays, same pointees, nested structs at the same addresses); the second call re-uses a buffer.
+func mutStream(r *Runner, g *Gen, n int) {
 	// the value changes in place between two Marshal calls (same map objects, same backing arrays, same pointees)
-	for i := 0; i < scale(tier, 800, 60000); i++ {
+	for i := 0; i < n; i++ {
 		cfg := g.pickCfg()
 		t := g.structType(2)
 		if g.r.P(40) {
@@ -67,17 +84,6 @@ func runC06(r *Runner, g *Gen, tier string) string {
 		}
 		r.Do(codecOp("mut", cfg, t, "", v1.Sexp(), v2.Sexp()), true, "mut")
 	}
-	// widest varints and fixed-width values with every amount of spare capacity up to a little beyond the encoding
-	wide := Struct(F("A", "1", B("uint64")), &FieldDef{Name: "B", Exported: true, Plenc: "2,flat", T: B("int64")}, F("C", "3", B("int64")),
-		F("T", "4", &TyDef{K: "time"}), F("F", "5", B("f64")), F("S", "6", B("str")))
-	for _, a := range []uint64{1 << 63, ^uint64(0), 1<<56 - 1, 1 << 56, 127, 128} {
-		v := &Val{K: "r", L: []*Val{{K: "u", U: a}, {K: "i", I: -1}, {K: "i", I: -1 << 63}, {K: "T", Sec: 1700000000, Nsec: 999999999},
-			{K: "f64", U: 0x4009_21fb_5444_2d18}, {K: "s", Data: []byte("hello")}}}
-		for capExtra := 0; capExtra <= 64; capExtra++ {
-			r.Do(codecOp("app", "00", wide, "", v.Sexp(), A(hx([]byte{9})), A(fmt.Sprint(capExtra)), A("ptr")), true, "app.capsweep")
-		}
-	}
-	return "generated types and values (25% zero values that encode to nothing; no multi-entry maps), random prefix contents (0..40 bytes), spare capacity 0/1/8/64/4096 and every value below 40, a sweep of all capacities 0..64 under a struct of 10-byte varints, a time, a float and a string, by pointer and by value (incl. pointer-shaped structs), repeated calls; compared: the returned bytes = prefix ++ Marshal(nil, v); non-trivial = non-empty prefix"
 }
 
 // ifaceShaped: struct types around the boundary of "stored directly in the
@@ -97,15 +103,20 @@ func (g *Gen) ifaceShaped() *TyDef {
 	}
 	marker := &FieldDef{Name: "_", Exported: false, T: Struct()}
 	field := F("V", "1", inner)
-	switch g.r.Intn(5) {
+	switch g.r.Intn(6) {
 	case 0:
 		return Struct(field)
 	case 1:
 		return Struct(marker, field)
 	case 2:
 		return Struct(field, marker)
-	case 3:
-		return Struct(F("W", "2", Struct(field)))
+	case 3, 4:
+		// any depth of single-field nesting is still pointer-shaped
+		t := Struct(field)
+		for d := g.r.Intn(4); d >= 0; d-- {
+			t = Struct(F("W", "2", t))
+		}
+		return t
 	}
 	return Struct(field, F("X", "2", B("int")))
 }
@@ -543,6 +554,7 @@ func runC12(r *Runner, g *Gen, tier string) string {
 	n := scale(tier, 2500, 100000)
 	for i := 0; i < n; i++ {
 		g.proto = true // generate only shapes that are valid struct-rooted proto shapes
+		g.ptrSlices = true
 		t := g.structType(3)
 		b := 40
 		v := g.Value(t, &b)
